@@ -139,6 +139,28 @@ Section Meaning.
   Lemma peval_atom a : peval (poly_atom a) == ev a.
   Proof. unfold poly_atom, peval, meval. cbn [fold_right fst snd]. rewrite qpow_1. ring. Qed.
 
+  (* a folded closed term has, literally, the value every assignment gives it *)
+  Lemma cfold_sound e : forall q, cfold e = Some q -> ev e = q.
+  Proof.
+    induction e as [q0|x|o args IH|k i b lo hi _ _ _] using expr_ind'; intros q H; cbn [cfold] in H; try discriminate.
+    - inversion H. reflexivity.
+    - destruct (all_some (map cfold args)) as [vs|] eqn:Ea; [|discriminate].
+      destruct (foldable o vs); [|discriminate]. inversion H; subst. clear H.
+      unfold evalT. cbn [eval]. fold (evalT rho). f_equal.
+      revert vs Ea. induction args as [|a args IHa]; intros vs Ea; cbn [map all_some] in *.
+      + inversion Ea. reflexivity.
+      + inversion IH as [|? ? Ha IH']; subst.
+        destruct (cfold a) as [v|] eqn:Ev; [|discriminate].
+        destruct (all_some (map cfold args)) as [r|] eqn:Er; [|discriminate]. inversion Ea; subst.
+        rewrite (Ha v eq_refl), (IHa IH' r eq_refl). reflexivity.
+  Qed.
+
+  Lemma peval_aoc a : peval (atom_or_const a) == ev a.
+  Proof.
+    unfold atom_or_const. destruct (cfold a) as [q|] eqn:E; [|apply peval_atom].
+    rewrite peval_const, (cfold_sound a q E). apply Qred_correct.
+  Qed.
+
   Lemma peval_pow p n : peval (poly_pow p n) == qpow (peval p) n.
   Proof.
     induction n as [|n IH]; cbn [poly_pow].
@@ -178,34 +200,34 @@ Section Meaning.
     induction e as [q|x|o args IH|k i b lo hi IHb IHlo IHhi] using expr_ind'.
     - cbn [normalize]. rewrite peval_const. unfold evalT; cbn. apply Qred_correct.
     - cbn [normalize]. apply peval_atom.
-    - destruct o; try (cbn [normalize]; apply peval_atom).
+    - destruct o; try (cbn [normalize]; apply peval_aoc).
       + (* OAdd *) cbn [normalize]. unfold evalT; cbn [eval stdI].
         induction args as [|a args IHa]; cbn [fold_right map]; [reflexivity|].
         inversion IH; subst. rewrite peval_add, H1, (IHa H2). reflexivity.
       + (* OMul *) cbn [normalize]. unfold evalT; cbn [eval stdI].
         induction args as [|a args IHa]; cbn [fold_right map]; [apply peval_const|].
         inversion IH; subst. rewrite peval_mul, H1, (IHa H2). reflexivity.
-      + (* OSub *) destruct args as [|a [|b [|c rest]]]; try (cbn [normalize]; apply peval_atom).
+      + (* OSub *) destruct args as [|a [|b [|c rest]]]; try (cbn [normalize]; apply peval_aoc).
         cbn [normalize]. inversion IH as [|? ? Ha IH']; subst. inversion IH' as [|? ? Hb _]; subst.
         rewrite peval_add, peval_scale, Ha, Hb. unfold evalT; cbn. ring.
-      + (* ODiv *) destruct args as [|a [|b [|c rest]]]; try (cbn [normalize]; apply peval_atom).
+      + (* ODiv *) destruct args as [|a [|b [|c rest]]]; try (cbn [normalize]; apply peval_aoc).
         cbn [normalize]. inversion IH as [|? ? Ha IH']; subst. inversion IH' as [|? ? Hb _]; subst.
-        destruct (poly_is_const (normalize b)) as [c|] eqn:Ec; [|apply peval_atom].
-        destruct (Z.eqb (Qnum c) 0); [apply peval_atom|].
+        destruct (poly_is_const (normalize b)) as [c|] eqn:Ec; [|apply peval_aoc].
+        destruct (Z.eqb (Qnum c) 0); [apply peval_aoc|].
         rewrite peval_scale, Ha. pose proof (poly_is_const_sound _ _ Ec) as Hc. rewrite Hb in Hc.
         unfold evalT in *; cbn [eval stdI map]. rewrite Hc. unfold Qdiv. ring.
-      + (* OPow *) destruct args as [|a [|b [|c rest]]]; try (cbn [normalize]; apply peval_atom).
+      + (* OPow *) destruct args as [|a [|b [|c rest]]]; try (cbn [normalize]; apply peval_aoc).
         cbn [normalize]. inversion IH as [|? ? Ha IH']; subst. inversion IH' as [|? ? Hb _]; subst.
-        destruct (poly_is_const (normalize b)) as [c|] eqn:Ec; [|apply peval_atom].
-        destruct (q_int c) as [z|] eqn:Ez; [|apply peval_atom].
-        destruct (Z.leb 0 z && Z.leb z 12) eqn:Er; [|apply peval_atom].
+        destruct (poly_is_const (normalize b)) as [c|] eqn:Ec; [|apply peval_aoc].
+        destruct (q_int c) as [z|] eqn:Ez; [|apply peval_aoc].
+        destruct (Z.leb 0 z && Z.leb z 12) eqn:Er; [|apply peval_aoc].
         apply andb_true_iff in Er. destruct Er as [E0 _]. apply Z.leb_le in E0.
         rewrite peval_pow, (qpow_comp _ _ _ Ha).
         pose proof (poly_is_const_sound _ _ Ec) as Hc. rewrite Hb, (q_int_sound _ _ Ez) in Hc.
         unfold evalT in *; cbn [eval stdI map]. rewrite (Qpow_std_int _ _ _ Hc). unfold qpow. rewrite Z2Nat.id by exact E0. reflexivity.
-      + (* ONeg *) destruct args as [|a [|b rest]]; try (cbn [normalize]; apply peval_atom).
+      + (* ONeg *) destruct args as [|a [|b rest]]; try (cbn [normalize]; apply peval_aoc).
         cbn [normalize]. inversion IH as [|? ? Ha _]; subst. rewrite peval_scale, Ha. unfold evalT; cbn. ring.
-    - cbn [normalize]. apply peval_atom.
+    - cbn [normalize]. apply peval_aoc.
   Qed.
 
   Lemma difference_sound l r : peval (difference l r) == ev l - ev r.
